@@ -94,7 +94,22 @@ fn maybe_exempt_soft_family(seed: u64, sc: &mut Scenario, one_in: usize) {
         }
         victims.push((n, x));
     }
+    // one or two victims (of different packages); y requires the packages of all of them
     let (vn, vx) = *r.pick(&victims);
+    let mut chosen = vec![(vn, vx)];
+    if r.chance(1, 2) {
+        // make sure a second package with an excluded candidate exists
+        let others: Vec<u32> = w.packages.iter().filter(|(n, p)| **n != vn && !p.missing && !p.candidates.is_empty()).map(|(n, _)| *n).collect();
+        if !others.is_empty() {
+            let n2 = *r.pick(&others);
+            let p2 = w.packages.get_mut(&n2).unwrap();
+            let x2 = *r.pick(&p2.candidates);
+            if !p2.excluded.iter().any(|(x, _)| *x == x2) {
+                p2.excluded.push((x2, 0));
+            }
+            chosen.push((n2, x2));
+        }
+    }
     let mut next_name = w.packages.keys().max().map(|m| m + 1).unwrap_or(0);
     let mut next_s = w.solvables.keys().max().map(|m| m + 1).unwrap_or(0);
     let mut next_vs = w.version_sets.keys().max().map(|m| m + 1).unwrap_or(0);
@@ -106,18 +121,21 @@ fn maybe_exempt_soft_family(seed: u64, sc: &mut Scenario, one_in: usize) {
         w.packages.insert(n, Package { candidates: vec![s], rank: vec![s], favored: None, locked: None, excluded: vec![], hint: Hint::None, missing: false });
         s
     };
-    // y requires the victim's package (any candidate, or exactly the victim)
-    let all = {
-        let mut m = w.packages[&vn].candidates.clone();
-        m.sort();
-        m
-    };
-    let vs = next_vs;
-    next_vs += 1;
-    let _ = next_vs;
-    w.version_sets.insert(vs, VersionSet { name: vn, matches: if r.chance(1, 2) { all } else { vec![vx] } });
-    let y = new_pkg(w, vec![Req::Single(vs)]);
-    let mut soft = vec![vx, y];
+    let mut y_reqs = Vec::new();
+    for (n, x) in &chosen {
+        let all = {
+            let mut m = w.packages[n].candidates.clone();
+            m.sort();
+            m
+        };
+        let vs = next_vs;
+        next_vs += 1;
+        w.version_sets.insert(vs, VersionSet { name: *n, matches: if r.chance(1, 2) { all } else { vec![*x] } });
+        y_reqs.push(Req::Single(vs));
+    }
+    let y = new_pkg(w, y_reqs);
+    let mut soft: Vec<u32> = chosen.iter().map(|(_, x)| *x).collect();
+    soft.push(y);
     for _ in 0..r.range(1, 2) {
         soft.push(new_pkg(w, vec![]));
     }
